@@ -212,6 +212,7 @@ def run_shard(spec, acc):
                     check_text(text, acc, parse_expression, perr)
                 acc.count('chains')
     elif spec['part'] == 'random':
+        seen = []
         base = spec['seed'] * 1000003 + spec['shard'] * 7919 + 17
         for i in range(spec['n']):
             rnd = random.Random(base + i)
@@ -228,6 +229,14 @@ def run_shard(spec, acc):
             expected = refexpr.with_groups(tree)
             check_text(text, acc, parse_expression, perr, expected=expected, kind='random')
             acc.count('random_trees')
+            if i < 1500:
+                seen.append(text)
+                # siblings that differ only in blanks inside / outside string literals
+                if "'" in text or '"' in text:
+                    seen.append(text.replace(' ', '  '))
+                    seen.append(text.replace(' ', '\t'))
+        if spec['shard'] == 0:
+            state_check(seen, acc, parse_expression, perr, spec['seed'])
     else:
         base = spec['seed'] * 1000003 + spec['shard'] * 7919 + 31
         for i in range(spec['n']):
@@ -256,6 +265,29 @@ def run_shard(spec, acc):
                     continue
             check_text(text, acc, parse_expression, perr, kind='soup')
             acc.count('soup_texts')
+
+
+def state_check(texts, acc, parse_expression, perr, seed):
+    """No state between calls: a fresh process that parses the same texts in reversed order gives the same trees."""
+    from .. import core
+    texts = list(dict.fromkeys(texts))[:5000]
+    warm = []
+    for t in texts:
+        try:
+            warm.append(['ok', parse_expression(t)])
+        except perr as exc:
+            warm.append(['err', 'BareScriptParserError', exc.column_number])
+        except Exception as exc:  # pylint: disable=broad-except
+            warm.append(['err', type(exc).__name__, None])
+    cold = core.cold_reversed('parse_expression', texts, seed)
+    if cold is None:
+        acc.note_inconclusive('cold child process for the state check failed')
+        return
+    for t, a, b in zip(texts, warm, cold):
+        acc.count('cold_vs_warm_comparisons')
+        if a != b:
+            acc.violation('parse-depends-on-earlier-calls', f'{t!r}: in this process {json.dumps(a)[:300]}, in a fresh process (reversed order) {json.dumps(b)[:300]}', {'text': t})
+            return
 
 
 def replay(spec, acc):
